@@ -1920,7 +1920,24 @@ def check_C13(ctx):
                 UBXMessage(ent["cls"], ent["id"], ent["mode"], payload=lay.payload[:-1] if lay.payload else b"\x00")
             except Exception:  # noqa
                 pass
+        # a caller may do what it likes with the values a message hands out: list-valued attributes (array types) of
+        # messages built from defaults or parsed from bytes are changed in place — later messages must not care
+        for cls_, id_, mode_, kw_ in ((b"\x0a", b"\x31", 0, dict(numRfBlocks=1)), (b"\x02", b"\x73", 0, {})):
+            try:
+                mm = UBXMessage(cls_, id_, mode_, **kw_)
+                for k_, v_ in list(mm.__dict__.items()):
+                    if isinstance(v_, list) and v_:
+                        v_[0] = 201
+                        v_.append(7)
+            except Exception:  # noqa
+                pass
         second = corr.run_python(list(reversed(probe_lines)))[::-1]
+    probe_extra = ["construct 0a 31 0 1 A numRfBlocks=i1", "construct 02 73 0 1 E", "nomval A256", "nomval A250", "nomval A005"]
+    ex1 = [canon.canon_readp_model(canon.canon_model_line(x)) for x in run_model(probe_extra)]
+    ex2 = corr.run_python(probe_extra)
+    for l, a, b in zip(probe_extra, ex2, ex1):
+        if a != b:
+            res.finding("class=history-dependent", "a default-built message / nominal value changed after a caller modified an earlier one in place", dict(op=l, now=a[:200], fresh=b[:200]))
     if cap2.data:
         res.finding("class=writes-to-stdout-or-stderr", f"parsing/constructing wrote {cap2.data[:80]!r}", dict(op="(history run)"))
     res.count(len(probe_lines))
@@ -2022,6 +2039,15 @@ def check_C14(ctx):
             kid = (code << 28) | rng.getrandbits(28)
             lines.append(f"cfgkey {kid}")
             meta.append(("ukey", kid))
+    # ids one bit away from a documented key (every bit position): still undocumented, still named CFG_0x…
+    known_ids = set(k_ for k_, t_ in db.values())
+    base_keys = rng.sample(sorted(known_ids), ctx.n(40, 400))
+    for kid0 in base_keys:
+        for bit in range(32):
+            kid = kid0 ^ (1 << bit)
+            if kid not in known_ids:
+                lines.append(f"cfgkey {kid}")
+                meta.append(("ukey", kid))
     for nme in ("CFG_NOT_A_KEY", "cfg_nmea_protver", "X"):
         lines.append(f"cfgname {nme}")
         meta.append(("uname", nme))
@@ -2136,6 +2162,9 @@ def spec_len(ent, kw):
                         c = kw.get(v[0], 0)
                         if not isinstance(c, int) or c < 0:
                             return None
+                        # ESF-MEAS (SET): the group has one more member when calibTtagValid is set (documented special case)
+                        if (ent["cls"], ent["id"], ent["mode"], v[0]) == (b"\x10", b"\x02", 1, "numMeas") and kw.get("calibTtagValid"):
+                            c += 1
                     sub = walk(v[1], c)
                     if sub is None:
                         return None
@@ -2816,6 +2845,19 @@ def check_C18(ctx):
                 enc = canon.handle(f"v2b {t} {a[3:]}")
                 if enc != "ok " + canon.hx(bytes(gen.tsize(t))):
                     res.finding(f"class=nomval-not-zero;type={t[0]}", f"val2bytes(nomval({t})) = {enc}", dict(op=l))
+                # the nominal value is a fresh value every time: what a caller does with a mutable one (array types
+                # yield a list) must not change what the next caller gets
+                try:
+                    first = uh.nomval(t)
+                    if isinstance(first, list) and first:
+                        first[0] = 77
+                        first.append(5)
+                    again = uh.nomval(t)
+                    if isinstance(again, list) and (again is first or uh.val2bytes(again, t) != bytes(gen.tsize(t))):
+                        res.finding(f"class=nomval-shared-mutable;type={t[0]}", f"nomval({t}) hands out one shared list: after a caller changed it, the next nominal value is {again[:4]}…", dict(op=l))
+                        del first[-1]; first[0] = 0      # undo, so that later probes see the library as it was
+                except Exception as e:  # noqa
+                    res.finding(f"class=nomval-shared-mutable;type={t[0]}", f"nomval({t}) after a caller changed an earlier result: {canon.excname(e)}", dict(op=l))
         elif kind == "cksum":
             if a != fletcher_ref(v).hex():
                 res.finding("class=checksum-not-fletcher", f"calc_checksum({v.hex()[:40]}) = {a}", dict(op=l[:200]))
